@@ -299,6 +299,7 @@ harness_op(int argc, char **argv)
         bool ser = strcmp(argv[2], "serial") == 0, tcp = strcmp(argv[2], "tcp") == 0;
         if (!(m8 || m16) || !(ser || tcp) || B == 0) { printf("bad-op"); return; }
         harness_reset();
+        memset(&p, 0xa5, sizeof p);             /* the initialiser must set every field it relies on */
         regp_init(&p);
         mem16 = m16;
         if (m16) regp_use_memory16(&p, be_read16, be_write16);
